@@ -316,7 +316,12 @@ type KBNode struct {
 	holdRelease chan struct{}
 	// compactGate: a Del / DelCurrent of this internal key (the compactor's) is held until released
 	// barrier: when set, every batch commit waits here until `barrierN` commits have arrived (aligned commits)
-	barrier        *kbBarrier
+	barrier *kbBarrier
+	// Front, when set, is the front end client requests go through (etcd RPCServer, brain server) instead of the Backend
+	Front KBFront
+	// burst: every second batch commit of a non-scheduled goroutine is applied and reported as uncertain
+	burst          bool
+	burstCnt       uint64
 	compactGate    []byte
 	compactEntered chan struct{}
 	compactRelease chan struct{}
@@ -499,6 +504,10 @@ func (n *KBNode) commitFault() (error, bool) {
 		n.mu.Lock()
 		u := n.uncertainNext
 		n.uncertainNext = false
+		if n.burst {
+			n.burstCnt++
+			u = u || n.burstCnt%2 == 0
+		}
 		n.mu.Unlock()
 		if u {
 			// the batch is applied, the caller is told that the outcome is unknown
@@ -538,6 +547,9 @@ func (n *KBNode) DoCtx(ctx context.Context, q KReq, key []byte) (r KResp) {
 			n.mu.Unlock()
 		}
 	}()
+	if n.Front != nil {
+		return n.Front.Do(ctx, q, key)
+	}
 	switch q.Op {
 	case OpCreate:
 		resp, err := n.B.Create(ctx, &proto.CreateRequest{Key: key, Value: q.Val})
@@ -657,6 +669,10 @@ type KBSpec struct {
 	// blocks (expected there); on the transactional engines it runs, and the parked commit then meets the
 	// engine's own conflict detection.
 	ParkCommit []int
+	// CompactAtStep: after that many recorded steps the main goroutine calls Backend.Compact with the largest
+	// header revision answered so far (an explicit revision that may lie above the read revision)
+	HasCompact    bool
+	CompactAtStep int
 }
 
 func (n *KBNode) seqCall(q KReq, key []byte) (KResp, error) {
@@ -879,6 +895,7 @@ func (n *KBNode) RunCase(spec KBSpec) (*KCase, error) {
 		}
 	}
 	done := make([]bool, len(progs))
+	compacted := false
 	heldDone := false
 	seenResps := make([]int, len(progs))
 	var runErr error
@@ -909,6 +926,22 @@ func (n *KBNode) RunCase(spec KBSpec) (*KCase, error) {
 		if step > 400 {
 			runErr = fmt.Errorf("schedule did not terminate")
 			break
+		}
+		if spec.HasCompact && !compacted && len(c.Steps) >= spec.CompactAtStep {
+			compacted = true
+			var top uint64
+			for _, st := range c.Steps {
+				for _, r := range st.Resps {
+					if !r.Err && r.Hdr > top {
+						top = r.Hdr
+					}
+				}
+			}
+			if _, err := n.B.Compact(context.Background(), top); err != nil {
+				runErr = fmt.Errorf("Compact(%d): %v", top, err)
+				break
+			}
+			c.Note += fmt.Sprintf(" [Compact(%d) called after step %d]", top, len(c.Steps))
 		}
 		t, env := spec.Pick(step, alive, at)
 		point := threads[t].Point
@@ -1729,4 +1762,86 @@ func (n *KBNode) ListHeaderStress(d time.Duration) (lists int, what string, deta
 		return lists, what, detail, fmt.Errorf("%s", pm)
 	}
 	return lists, what, detail, nil
+}
+
+// KBFront is a front end in front of the node's Backend.
+type KBFront interface {
+	Do(ctx context.Context, q KReq, key []byte) KResp
+}
+
+// UncertainBurstStress: several writers create keys while every second commit is applied but reported as
+// uncertain, with the repair loop running at a high rate; afterwards (fault gone) a well-formed create must
+// become readable. Returns a description when the read revision is frozen.
+func (n *KBNode) UncertainBurstStress(writers int, d time.Duration) (string, interface{}, error) {
+	n.caseNo++
+	n.mu.Lock()
+	n.burst = true
+	n.mu.Unlock()
+	var stop int32
+	var wg sync.WaitGroup
+	var highest, uncertain uint64
+	var hmu sync.Mutex
+	stopped := func() bool {
+		hmu.Lock()
+		defer hmu.Unlock()
+		return stop != 0
+	}
+	for w := 0; w < writers; w++ {
+		w := w
+		wg.Add(1)
+		go func() {
+			defer wg.Done()
+			for i := 0; !stopped(); i++ {
+				r := n.Do(KReq{Op: OpCreate, Val: []byte("b")}, []byte(fmt.Sprintf("%s/c%d/w%d/%06d", KBPrefix, n.caseNo, w, i)))
+				hmu.Lock()
+				if r.Err {
+					uncertain++
+				} else if r.Hdr > highest {
+					highest = r.Hdr
+				}
+				hmu.Unlock()
+				for !r.Err && r.Hdr > n.B.GetCurrentRevision()+256 && !stopped() {
+					time.Sleep(50 * time.Microsecond)
+				}
+			}
+		}()
+	}
+	start := time.Now()
+	lastSeen, lastMove := n.B.GetCurrentRevision(), time.Now()
+	stalled := false
+	for time.Since(start) < d {
+		time.Sleep(10 * time.Millisecond)
+		cur := n.B.GetCurrentRevision()
+		if cur != lastSeen {
+			lastSeen, lastMove = cur, time.Now()
+			continue
+		}
+		hmu.Lock()
+		h := highest
+		hmu.Unlock()
+		if h > cur && time.Since(lastMove) > 1500*time.Millisecond {
+			stalled = true
+			break
+		}
+	}
+	n.mu.Lock()
+	n.burst = false
+	n.mu.Unlock()
+	hmu.Lock()
+	stop = 1
+	hmu.Unlock()
+	wg.Wait()
+	if pm := n.panicMsg(); pm != "" {
+		return "", nil, fmt.Errorf("%s", pm)
+	}
+	mk := n.Do(KReq{Op: OpCreate, Val: []byte("m")}, []byte(fmt.Sprintf("%s/c%d/after-the-fault", KBPrefix, n.caseNo)))
+	ok := !mk.Err && mk.Succ && n.WaitRev(mk.Hdr, 5*time.Second)
+	detail := map[string]interface{}{"engine": n.Engine, "writers": writers, "uncertain_results": uncertain, "highest_acknowledged": highest,
+		"read_revision": n.B.GetCurrentRevision(), "create_after_the_fault": mk.JSON(), "stalled_during_burst": stalled}
+	if !ok {
+		n.Dead = true
+		return fmt.Sprintf("read revision frozen at %d: a create acknowledged at %d after the storage fault was gone never became readable (%d uncertain results during the burst)",
+			n.B.GetCurrentRevision(), mk.Hdr, uncertain), detail, nil
+	}
+	return "", detail, nil
 }
